@@ -1,64 +1,131 @@
 ------------------------------- MODULE Collect -------------------------------
 (***************************************************************************)
-(* C10, file collection: which files a directory run lints, compared with  *)
-(* which files are linted when each is named on its own, in the presence of *)
-(* repository-level ignore patterns (.thailintignore / `ignore:`).          *)
+(* C14: which files a run lints.                                            *)
 (*                                                                           *)
-(* Project: pkg/m<f>/mod.<ext> for f in Files (one directory per file).     *)
-(* A pattern is [kind, f] - instantiated on the directory / file number f:   *)
-(*   bare      pkg/m<f>          fnmatch on the whole relative path: matches *)
-(*                               the DIRECTORY path, not the files inside    *)
-(*   star2     **/m<f>           likewise (the path must END in /m<f>)       *)
-(*   question  pkg/m0?           every directory pkg/m01..m09, no file        *)
-(*   slash     m<f>/             gitignore directory pattern: everything     *)
-(*                               below a directory called m<f>               *)
-(*   prefix    pkg/m<f>*         `*` crosses `/` in fnmatch: the directory   *)
-(*                               and everything below                        *)
-(*   exact     pkg/m<f>/mod.ext  that file                                    *)
-(*   ext       *.<ext of f>      every file with the extension of file f     *)
-(* (src/linter_config/pattern_utils.py matches_pattern.)                     *)
+(* A file is [dirs |-> sequence of directory names below the project root,  *)
+(* stem, ext].  Names are atoms (TLC cannot take strings apart); the only   *)
+(* string relation the code relies on - "x starts with y" - is tabulated in *)
+(* StartsWith.                                                              *)
 (*                                                                           *)
-(* Layer A: a file named on its own is linted iff no pattern matches the     *)
-(*   FILE's path (Orchestrator.lint_file -> ignore_parser.is_ignored);       *)
-(*   the directory run lints exactly those files (union law of C10).         *)
-(* Layer B: the directory walker (_collect_files_fast + lint_file per file). *)
-(*   PruneIgnoredDirs = TRUE is the tempting optimisation "do not descend    *)
-(*   into a directory whose path matches an ignore pattern": it loses the    *)
-(*   files of directories matched by bare / star2 / question patterns.       *)
+(* Layer A (requirement, from the property and docs/configuration.md):      *)
+(*   Linted(f)  <=>  f is under the target (a direct child if              *)
+(*                   non-recursive), no directory component between the     *)
+(*                   project root and f is always-excluded, the extension   *)
+(*                   is not a compiled artefact, and no ignore pattern      *)
+(*                   matches f's project-relative path.                     *)
+(* Layer B (as coded in src/orchestrator/core.py, linter_config/ignore.py,  *)
+(* pattern_utils.py): os.walk with pruning below the target                 *)
+(* (WalkCollect), then _is_hardcoded_excluded on ALL parts of the path      *)
+(* as spelled, then IgnoreDirectiveParser.is_ignored with fnmatch           *)
+(* semantics, including the `fnmatch(path, dir + "*")` fallback of          *)
+(* directory patterns (named deviation DirPatternPrefixFallback).           *)
 (***************************************************************************)
-EXTENDS Naturals, FiniteSets, Sequences, TLC, Json
+EXTENDS Naturals, Sequences, FiniteSets, TLC, Json
 
-CONSTANTS NFiles, PruneIgnoredDirs
+ExcludedDirs == {"__pycache__", "node_modules", ".git", ".venv", "venv", ".tox", "dist", "build",
+                 "htmlcov", "pkg.egg-info"}
+CompiledExts == {"pyc", "so"}
 
-Files == 1..NFiles
-Kinds == {"bare", "star2", "question", "slash", "prefix", "exact", "ext"}
-ExtOf(f) == IF f % 2 = 0 THEN "py" ELSE "ts"      \* any assignment will do for the model
-Pattern == [kind : Kinds, f : 1..2]
+D1 == {"src", "gen", "gen2", "genx", ".hid", "sub"} \cup ExcludedDirs
+D2 == {"sub", "gen", "build", "node_modules"}
+DirPaths == {<<>>} \cup {<<d>> : d \in D1} \cup {<<d1, d2>> : d1 \in {"src", "gen", "build"}, d2 \in D2}
+Names == {[stem |-> "a", ext |-> "py"], [stem |-> "keep", ext |-> "ts"], [stem |-> "a", ext |-> "pyc"],
+          [stem |-> "lib", ext |-> "so"], [stem |-> "gen_notes", ext |-> "txt"]}
+Universe == {[dirs |-> d, stem |-> n.stem, ext |-> n.ext] : d \in DirPaths, n \in Names}
 
-MatchesFile(p, g) == CASE p.kind \in {"bare", "star2", "question"} -> FALSE
-                       [] p.kind \in {"slash", "prefix", "exact"}   -> p.f = g
-                       [] p.kind = "ext"                            -> ExtOf(p.f) = ExtOf(g)
-MatchesDir(p, g)  == CASE p.kind \in {"bare", "star2", "slash", "prefix"} -> p.f = g
-                       [] p.kind = "question"                        -> TRUE
-                       [] p.kind \in {"exact", "ext"}                -> FALSE
+\* "x starts with y" for the atoms above (x # y)
+StartsWith == {<<"gen2", "gen">>, <<"genx", "gen">>, <<"gen_notes", "gen">>, <<"sub", "su">>}
 
-VARIABLES pats, done
-vars == <<pats, done>>
-Init == pats = {} /\ done = FALSE
-Choose(P) == ~done /\ pats' = P /\ done' = TRUE
-Next == \/ \E p \in Pattern : Choose({p})
-        \/ \E p, q \in Pattern : p.kind # q.kind /\ p.f = 1 /\ q.f = 2 /\ Choose({p, q})
-        \/ Choose({})
+Patterns == {
+    [kind |-> "dir",   dirs |-> <<"gen">>, stem |-> "", ext |-> ""],          \* gen/
+    [kind |-> "dir",   dirs |-> <<"sub">>, stem |-> "", ext |-> ""],          \* sub/
+    [kind |-> "dir",   dirs |-> <<".hid">>, stem |-> "", ext |-> ""],         \* .hid/
+    [kind |-> "ext",   dirs |-> <<>>, stem |-> "", ext |-> "ts"],             \* *.ts
+    [kind |-> "ext",   dirs |-> <<>>, stem |-> "", ext |-> "txt"],            \* *.txt
+    [kind |-> "exact", dirs |-> <<"src">>, stem |-> "a", ext |-> "py"],       \* src/a.py
+    [kind |-> "exact", dirs |-> <<>>, stem |-> "keep", ext |-> "ts"],         \* keep.ts
+    [kind |-> "exact", dirs |-> <<"gen", "sub">>, stem |-> "a", ext |-> "py"],\* gen/sub/a.py
+    [kind |-> "tree",  dirs |-> <<"src">>, stem |-> "", ext |-> ""],          \* src/**
+    [kind |-> "tree",  dirs |-> <<"src", "sub">>, stem |-> "", ext |-> ""],   \* src/sub/**
+    [kind |-> "any",   dirs |-> <<>>, stem |-> "a", ext |-> "py"]             \* **/a.py
+}
+
+Targets == {<<>>, <<"src">>, <<"gen">>}
+
+CONSTANTS MaxPatterns,
+          DirPatternPrefixFallback  \* TRUE: fnmatch(path, dir + "*") as coded at the pinned commit
+
+VARIABLES pats, recursive, target, done
+vars == <<pats, recursive, target, done>>
+
+\* ---- helpers ------------------------------------------------------------------------------
+IsPrefix(s, t) == Len(s) <= Len(t) /\ \A i \in 1..Len(s) : s[i] = t[i]
+ToSet(s) == {s[i] : i \in 1..Len(s)}
+Under(f, t) == IsPrefix(t, f.dirs)
+Direct(f, t) == f.dirs = t
+
+\* ---- layer A --------------------------------------------------------------------------------
+\* "must": documented meaning unambiguous;  Unspecified: docs leave it open (no verdict)
+MatchesA(p, f) ==
+    CASE p.kind = "dir"   -> p.dirs[1] \in ToSet(f.dirs)
+      [] p.kind = "ext"   -> f.ext = p.ext
+      [] p.kind = "exact" -> f.dirs = p.dirs /\ f.stem = p.stem /\ f.ext = p.ext
+      [] p.kind = "tree"  -> IsPrefix(p.dirs, f.dirs)
+      [] p.kind = "any"   -> f.stem = p.stem /\ f.ext = p.ext /\ Len(f.dirs) >= 1
+Unspecified(p, f) == p.kind = "any" /\ f.stem = p.stem /\ f.ext = p.ext /\ Len(f.dirs) = 0
+
+InExcludedDir(f) == \E d \in ToSet(f.dirs) : d \in ExcludedDirs
+Compiled(f) == f.ext \in CompiledExts
+InScope(f, t, r) == Under(f, t) /\ (r \/ Direct(f, t))
+
+LintedA(f, P, t, r) == InScope(f, t, r) /\ ~InExcludedDir(f) /\ ~Compiled(f) /\ ~\E p \in P : MatchesA(p, f)
+DontCare(f, P) == \E p \in P : Unspecified(p, f) /\ ~\E q \in P : MatchesA(q, f)
+
+MustLint(P, t, r) == {f \in Universe : LintedA(f, P, t, r) /\ ~DontCare(f, P)}
+MustSkip(P, t, r) == {f \in Universe : ~LintedA(f, P, t, r) /\ ~DontCare(f, P)}
+
+\* ---- layer B --------------------------------------------------------------------------------
+\* os.walk from the target: directories BELOW the target are pruned when excluded
+WalkCollect(t, r) == {f \in Universe : /\ InScope(f, t, r) /\ ~Compiled(f)
+                                       /\ \A i \in (Len(t) + 1)..Len(f.dirs) : f.dirs[i] \notin ExcludedDirs}
+\* _is_hardcoded_excluded: every part of the path as spelled (here: project-relative spelling)
+HardExcludedB(f) == Compiled(f) \/ \E d \in ToSet(f.dirs) : d \in ExcludedDirs
+FirstComponent(f) == IF Len(f.dirs) > 0 THEN f.dirs[1] ELSE f.stem
+MatchesB(p, f) ==
+    CASE p.kind = "dir"   -> \/ p.dirs[1] \in ToSet(f.dirs)
+                             \/ (DirPatternPrefixFallback /\ <<FirstComponent(f), p.dirs[1]>> \in StartsWith)
+                             \/ (DirPatternPrefixFallback /\ FirstComponent(f) = p.dirs[1])
+      [] p.kind = "ext"   -> f.ext = p.ext
+      [] p.kind = "exact" -> f.dirs = p.dirs /\ f.stem = p.stem /\ f.ext = p.ext
+      [] p.kind = "tree"  -> IsPrefix(p.dirs, f.dirs)
+      [] p.kind = "any"   -> f.stem = p.stem /\ f.ext = p.ext /\ Len(f.dirs) >= 1
+LintedB(P, t, r) == {f \in WalkCollect(t, r) : ~HardExcludedB(f) /\ ~\E p \in P : MatchesB(p, f)}
+
+\* ---- case builder -----------------------------------------------------------------------------
+Init == pats = {} /\ recursive = TRUE /\ target = <<>> /\ done = FALSE
+AddPattern(p) == ~done /\ p \notin pats /\ Cardinality(pats) < MaxPatterns
+                 /\ pats' = pats \cup {p} /\ UNCHANGED <<recursive, target, done>>
+Finish(t, r) == ~done /\ done' = TRUE /\ target' = t /\ recursive' = r /\ UNCHANGED pats
+Next == (\E p \in Patterns : AddPattern(p)) \/ (\E t \in Targets, r \in BOOLEAN : Finish(t, r))
 Spec == Init /\ [][Next]_vars
 
-\* ---- layer A ----------------------------------------------------------------------------------
-LintedAlone(P, g) == ~\E p \in P : MatchesFile(p, g)
-DirShouldLint(P)  == {g \in Files : LintedAlone(P, g)}
-\* ---- layer B ----------------------------------------------------------------------------------
-Descends(P, g) == ~(PruneIgnoredDirs /\ \E p \in P : MatchesDir(p, g))
-WalkLints(P)   == {g \in Files : Descends(P, g) /\ LintedAlone(P, g)}
+\* ---- properties checked by TLC ----------------------------------------------------------------
+\* the coded algorithm never lints a file the requirement says must be skipped ...
+BNeverLintsMustSkip == done => LintedB(pats, target, recursive) \cap MustSkip(pats, target, recursive) = {}
+\* ... but skips files the requirement says must be linted only through the prefix fallback
+BMissesOnlyByPrefixFallback == done =>
+    \A f \in MustLint(pats, target, recursive) \ LintedB(pats, target, recursive) :
+        \E p \in pats : p.kind = "dir" /\ <<FirstComponent(f), p.dirs[1]>> \in StartsWith
+BEqualsA == done => MustLint(pats, target, recursive) \subseteq LintedB(pats, target, recursive)
+\* meta-properties of the requirement itself
+Monotone == done => \A p \in Patterns :
+    MustLint(pats \cup {p}, target, recursive) \subseteq
+        (MustLint(pats, target, recursive) \cup {f \in Universe : DontCare(f, pats)})
+NonRecursiveSubset == done => MustLint(pats, target, FALSE) \subseteq MustLint(pats, target, TRUE)
 
-WalkerMatchesUnion == done => WalkLints(pats) = DirShouldLint(pats)
-SetToSeq(S) == CHOOSE s \in [1..Cardinality(S) -> S] : \A i, j \in 1..Cardinality(S) : i # j => s[i] # s[j]
-Emit == done => PrintT(<<"CASE", ToJson([pats |-> SetToSeq(pats), lint |-> SetToSeq(DirShouldLint(pats))])>>)
+FileId(f) == [dirs |-> f.dirs, stem |-> f.stem, ext |-> f.ext]
+Emit == done => PrintT(<<"CASE", ToJson([pats |-> pats, recursive |-> recursive, target |-> target,
+                                          must_lint |-> MustLint(pats, target, recursive),
+                                          must_skip |-> MustSkip(pats, target, recursive),
+                                          model_b |-> LintedB(pats, target, recursive)])>>)
 =============================================================================
